@@ -6,7 +6,9 @@ DRAG_TOP_ARRAY = os.environ.get('VERIF_C20_DRAG_TOP_ARRAY', '1') == '1'
 COLOURS = [0xD0FFE1, 0x224488, 0x00AA88, 0xFF0000, 0]
 
 
-def gen_value(rng, intonly=False):
+def gen_value(rng, intonly=False, allow_zero=False):
+    if allow_zero and rng.random() < 0.15:
+        return 0 if intonly or rng.random() < 0.5 else 0.0
     if intonly or rng.random() < 0.4:
         return rng.choice([-3, -2, -1, 1, 2, 3, 4, 5])
     return rng.choice([-2.5, -1.25, -0.5, 0.1, 0.3, 0.75, 1.5, 2.2, 3.7])
@@ -154,7 +156,7 @@ def gen_trace20(rng, tier='quick'):
                     pos = canon.index(rng.choice(mv['keys']))
                 else:
                     pos = rng.randrange(2 ** d)
-                changes.append([pos, gen_value(rng)])
+                changes.append([pos, gen_value(rng, allow_zero=True)])
             drags.append(dict(t=round(t, 4), place=place, changes=changes))
         world['horizon'] = t + 0.5
     world['drags'] = drags
